@@ -1,10 +1,81 @@
-(* C15 — stream server: each request reaches the handler exactly once, in order.  Statements only. *)
-From EN Require Import Lib.Bytes Frame.Framer Stream.Consumer Stream.Endpoint Conc.StreamServer Proofs.C15_proofs.
+(* C15 — stream server: each request reaches the handler exactly once, in order.  Statements only.
 
-(* Whatever the consumer, the peer's time line and the handler strategy (including handler exceptions), the client
-   task ends with its transport closed. *)
+   Vocabulary (definitions, no proofs): Conc/StreamServer.v (the model: client_coroutine, rq_next, hact, event, final),
+   Conc/StreamServerSpec.v (sstream_of, got_log, lstep/lrun), Stream/EndpointSpec.v (consumer_ok).
+   The handler is universally quantified as the action list [acts0] (and [oc]: on_connection as coroutine / generator /
+   closing coroutine); the peer as its time line [o] (any chunking, any arrival times, close or reset anywhere, transport
+   errors); the receive path as any consumer machine M with [consumer_ok M spec R]. *)
+From Coq Require Import List Arith.
+From EN Require Import Lib.Bytes Frame.Framer Frame.ReadUntil Stream.Consumer Stream.Endpoint Stream.EndpointSpec
+  Conc.StreamServer Conc.StreamServerSpec Proofs.C15_proofs Proofs.C03_fixed.
+Import ListNotations.
+
+(* The requests sent and the parse errors thrown into the handler generators, in order and concatenated over generator
+   restarts (on_connection generator, then every handle() generator), are a prefix of the frame-by-frame decoding of the
+   peer's request stream — nothing duplicated, reordered or invented, errors at their position — and when the connection
+   ends because the peer closed it (rather than the handler), they are ALL of it. *)
+Theorem requests_exactly_once_in_order :
+  forall (P C : Type) (M : machine P C) (spec : bytes -> list (nres P)) (R : C -> bytes -> nat -> Prop),
+    consumer_ok M spec R ->
+    forall c0 : C, R c0 [] 0 ->
+    forall (oc : nat) (acts0 : list hact) (o : speer),
+      let f := client_coroutine M oc acts0 c0 o in
+      (exists n, got_log (ulog (f_user f)) = firstn n (spec (sstream_of o)))
+      /\ (f_eof f = true -> got_log (ulog (f_user f)) = spec (sstream_of o)).
+Proof. exact (@client_coroutine_req). Qed.
+Print Assumptions requests_exactly_once_in_order.
+
+(* The request receiver throws TimeoutError only for a finite yielded timeout [tm], exactly at the deadline, when the
+   bytes read so far ([d ++ x]: everything the peer made available before the deadline, see the last conjunct) contain
+   no complete request beyond the k already handed out, and the next item of the peer arrives at or after the deadline. *)
+Theorem timeout_only_if_none_arrived :
+  forall (P C : Type) (M : machine P C) (spec : bytes -> list (nres P)) (R : C -> bytes -> nat -> Prop),
+    consumer_ok M spec R ->
+    forall (t : option nat) (c : C) (o : speer) (now : nat) (d : bytes) (k : nat) c' o' now',
+      R c d k ->
+      rq_next M t c o now = (c', o', now', NThrow XTimeout) ->
+      exists tm x, t = Some tm /\ now' = now + tm /\ x ++ sstream_of o' = sstream_of o /\
+                   R c' (d ++ x) k /\ k = length (spec (d ++ x)) /\
+                   match o' with it :: _ => now + tm <= sitem_at it | [] => False end.
+Proof. exact (@rq_next_timeout). Qed.
+Print Assumptions timeout_only_if_none_arrived.
+
+(* Generator life cycle, for every consumer, peer and handler strategy: the chronological log is accepted by [lrun]
+   (a generator starts only when none is active and with a fresh id, is resumed only while active, and ends — by itself
+   or by GeneratorExit — only while active, hence exactly once) and at the end of the task no generator is active. *)
+Theorem gen_closed_once :
+  forall (P C : Type) (M : machine P C) (oc : nat) (acts0 : list hact) (c : C) (o : speer),
+    exists n, lrun (ulog (f_user (client_coroutine M oc acts0 c o))) = Some (None, n).
+Proof. exact (@client_coroutine_wf). Qed.
+Print Assumptions gen_closed_once.
+
+(* Whatever the consumer, the peer and the handler do (including handler exceptions), the task ends with its transport
+   closed. *)
 Theorem connection_closed_at_end :
   forall (P C : Type) (M : machine P C) (oc : nat) (acts0 : list hact) (c : C) (o : speer),
     f_closed (client_coroutine M oc acts0 c o) = true.
 Proof. exact (@client_coroutine_closed). Qed.
 Print Assumptions connection_closed_at_end.
+
+(* closed instance: copying consumer over the fixed-size framer (interface proved in Proofs/C03_fixed.v) *)
+Theorem requests_exactly_once_in_order_fixed_size :
+  forall (P : Type) (size : nat) (dec : decoder P) (bufsize : nat), 0 < size -> 0 < bufsize ->
+  forall (oc : nat) (acts0 : list hact) (o : speer),
+    let f := client_coroutine (copy_machine (rx_framer size dec) bufsize) oc acts0 (cinit (rx_framer size dec)) o in
+    (exists n, got_log (ulog (f_user f)) = firstn n (fx_spec size dec (sstream_of o)))
+    /\ (f_eof f = true -> got_log (ulog (f_user f)) = fx_spec size dec (sstream_of o)).
+Proof. exact (@fixed_requests_in_order). Qed.
+Print Assumptions requests_exactly_once_in_order_fixed_size.
+
+(* ---- non-vacuity: size 2, identity codec; the peer sends "ab" at 0, "c" at 3, "d" at 9, closes at 12; the handler:
+   generator 0 yields None, takes "ab", yields timeout 4 (deadline 4: "c" alone completes nothing -> TimeoutError at 4),
+   catches it and returns; generator 1 yields None, takes "cd" at 9, yields None, is closed by the peer's EOF. *)
+Example c15_example :
+  let M := copy_machine (rx_framer 2 (fun b => Some b)) 64 in
+  let f := client_coroutine M 0 [AYield None; AYield (Some 4); AReturn; AYield None; AYield None] (cinit _)
+             [SData [97;98]%N 0; SData [99]%N 3; SData [100]%N 9; SEof 12] in
+  rev (ulog (f_user f)) =
+    [EOnConn; EStart 0; EGot 0 (UReq [97;98]%N) 0; EGot 0 (UErr XTimeout) 4; EEnd 0;
+     EStart 1; EGot 1 (UReq [99;100]%N) 9; EClosed 1; EOnDisc]
+  /\ f_eof f = true /\ f_outcome f = None /\ f_now f = 12.
+Proof. vm_compute. repeat split. Qed.
